@@ -165,6 +165,8 @@ def spec_form(eng, name, node, st):
                 tmp.env[k[3:]] = v
         tmp.heap, tmp.alloc, tmp.pc, tmp.ghost = dict(e.heap), dict(e.alloc), st.pc, e.ghost
         return eng.eval(node.args[0], tmp)
+    if name == "seq":
+        return st.env["__seq%d__" % node.args[0].value]
     if name == "visited":
         # visited(L, v): element v of the set iterated by loop L has been produced by an earlier iteration
         o = node.args[0].value
